@@ -23,7 +23,7 @@ def body(chk: core.Check):
     chk.bound("crosshair_per_condition_timeout_s", timeout)
     g = _client.render(chk)
     hm = ch.load_module(_client.HARNESS, {"VERIF_EMITTED": g.outdir})
-    methods = ["get_book", "create_book", "tag_book", "move_book", "update_book", "delete_book", "check_operation",
+    methods = ["get_book", "create_book", "tag_book", "move_book", "shelve_book", "update_book", "delete_book", "check_operation",
                "mask", "import_", "stream_books"]
     ec = _client.encode_sources(chk, g, methods)
     # declared order of the flattened parameters (concrete, inspect.signature)
